@@ -89,6 +89,33 @@ SPECS = [
     dict(lean="heatingWaitingPoll", file="controller/heating.py", cls="Heating", method="do_repeat_waiting",
          params="(c : Poupool.Heating.Cfg) (s : Poupool.Heating.St) (now : Int) (pool air : Option Int) (ready allow : Bool)", atoms=_HEAT,
          effects={r"self\.__set_next_start\(\)": "set next start"}),
+    dict(lean="startBackwash", file="controller/filtration.py", cls="Filtration", method="__start_backwash", returns=True,
+         params="(now last periodDays : Int) (tankHigh : Bool)",
+         atoms={"datetime.now()": ("int", "now"), "self.__backwash_last": ("int", "last"), "self.__backwash_period": ("int", "periodDays"),
+                "self.tank_is_high()": ("bool", "tankHigh")}),
+    dict(lean="tankForceEmpty", file="controller/tank.py", cls="Tank", method="force_empty", params="(previous value halted : Bool)",
+         atoms={"self.__force_empty": ("bool", "previous"), "value": ("bool", "value"), "self.is_halt()": ("bool", "halted")}),
+    dict(lean="tankIsLow", file="controller/filtration.py", cls="Filtration", method="tank_is_low", returns=True, params="(isHalt isLow isFill : Bool)",
+         atoms={"self.get_actor('Tank')": ("obj", "Tank"), "tank.is_halt().get()": ("bool", "isHalt"), "tank.is_low().get()": ("bool", "isLow"),
+                "tank.is_fill().get()": ("bool", "isFill")}),
+    dict(lean="tankIsHigh", file="controller/filtration.py", cls="Filtration", method="tank_is_high", returns=True, params="(isHigh : Bool)",
+         atoms={"self.get_actor('Tank').is_high().get()": ("bool", "isHigh")}),
+    dict(lean="pumpStoppedInStandby", file="controller/filtration.py", cls="Filtration", method="pump_stopped_in_standby", returns=True, params="(speedStandby : Int)",
+         atoms={"self.__speed_standby": ("int", "speedStandby")}),
+    dict(lean="swimAllowSwim", file="controller/swim.py", cls="Swim", method="filtration_allow_swim", returns=True,
+         params="(isOverflow isStandby isComfort isWintering : Bool)",
+         atoms={"self.get_actor('Filtration')": ("obj", "Filtration"), "actor.is_overflow_normal().get()": ("bool", "isOverflow"),
+                "actor.is_standby_normal().get()": ("bool", "isStandby"), "actor.is_comfort().get()": ("bool", "isComfort"),
+                "self.filtration_is_wintering()": ("bool", "isWintering")}),
+    dict(lean="swimIsWintering", file="controller/swim.py", cls="Swim", method="filtration_is_wintering", returns=True, params="(isWaiting isStir : Bool)",
+         atoms={"self.get_actor('Filtration')": ("obj", "Filtration"), "actor.is_wintering_waiting().get()": ("bool", "isWaiting"),
+                "actor.is_wintering_stir().get()": ("bool", "isStir")}),
+    dict(lean="heatingAllow", file="controller/heating.py", cls="Heating", method="filtration_allow_heating", returns=True, params="(isHeatingRunning : Bool)",
+         atoms={"self.get_actor('Filtration')": ("obj", "Filtration"), "actor.is_heating_running().get()": ("bool", "isHeatingRunning"),
+                "self.get_actor('Filtration').is_heating_running().get()": ("bool", "isHeatingRunning")}),
+    dict(lean="heatingReady", file="controller/heating.py", cls="Heating", method="filtration_ready_for_heating", returns=True, params="(isEcoWaiting isEcoNormal : Bool)",
+         atoms={"self.get_actor('Filtration')": ("obj", "Filtration"), "actor.is_eco_waiting().get()": ("bool", "isEcoWaiting"),
+                "actor.is_eco_normal().get()": ("bool", "isEcoNormal")}),
     dict(lean="heatingHeatingPoll", file="controller/heating.py", cls="Heating", method="do_repeat_heating",
          params="(c : Poupool.Heating.Cfg) (s : Poupool.Heating.St) (pool air : Option Int)", atoms=_HEAT),
 ]
@@ -185,20 +212,15 @@ class Exec:
     def term(self, node, env):
         """Lean Int term of an arithmetic expression; raises Opaque; returns (lean, set of optional vars it reads)"""
         s = unp(node)
-        if s in self.ctx.atoms:
-            kind, lean = self.ctx.atoms[s]
+        b = self.lookup(node, env)
+        if b is not None:
+            kind, lean = b
             if kind == "int":
                 return lean, set()
             if kind == "opt":
                 return f"{lean}!", {lean}
             raise Opaque(s)
         if isinstance(node, ast.Name):
-            if node.id in env["locals"]:
-                kind, lean = env["locals"][node.id]
-                if kind == "int":
-                    return lean, set()
-                if kind == "opt":
-                    return f"{lean}!", {lean}
             raise Opaque(s)
         if isinstance(node, ast.Constant) and isinstance(node.value, int) and not isinstance(node.value, bool):
             return (str(node.value) if node.value >= 0 else f"({node.value})"), set()
@@ -206,8 +228,12 @@ class Exec:
             if not node.args and not node.keywords:
                 return "0", set()
             parts, reads = [], set()
-            if node.args:
+            if len(node.args) > 1:
                 raise Opaque(s)
+            if node.args:  # first positional argument of timedelta: days
+                t, r = self.term(node.args[0], env)
+                reads |= r
+                parts.append(f"{t} * {US['days']}")
             for kw in node.keywords:
                 if kw.arg not in US:
                     raise Opaque(s)
@@ -243,11 +269,16 @@ class Exec:
         if isinstance(test, ast.UnaryOp) and isinstance(test.op, ast.Not):
             return self.branch(test.operand, env, kf, kt)
         s = unp(test)
-        # boolean atom / local
-        if s in self.ctx.atoms and self.ctx.atoms[s][0] == "bool":
-            return Ite(f"{self.ctx.atoms[s][1]} = true", kt(env), kf(env))
-        if isinstance(test, ast.Name) and test.id in env["locals"] and env["locals"][test.id][0] == "bool":
-            return Ite(f"{env['locals'][test.id][1]} = true", kt(env), kf(env))
+        if isinstance(test, ast.Constant) and isinstance(test.value, bool):
+            return kt(env) if test.value else kf(env)
+        # boolean attribute written earlier in this handler / boolean atom / boolean local
+        b = self.lookup(test, env)
+        if b is not None and b[0] == "bool":
+            if b[1] == "true":
+                return kt(env)
+            if b[1] == "false":
+                return kf(env)
+            return Ite(f"{b[1]} = true", kt(env), kf(env))
         if isinstance(test, ast.Compare) and len(test.ops) == 1:
             op, l, r = test.ops[0], test.left, test.comparators[0]
             if isinstance(op, (ast.Is, ast.IsNot)) and isinstance(r, ast.Constant) and r.value is None:
@@ -269,6 +300,17 @@ class Exec:
             reads = sorted(ra | rb)
             return self.with_opts(reads, env, lambda e: Ite(f"{self.subst(a, e)} {sym} {self.subst(b, e)}", kt(e), kf(e)))
         raise Opaque(s)
+
+    def lookup(self, node, env):
+        """binding (kind, lean) of an expression that is a written attribute, an atom or a local; None otherwise"""
+        s = unp(node)
+        if s in env.get("attrs", {}):
+            return env["attrs"][s]
+        if s in self.ctx.atoms:
+            return self.ctx.atoms[s]
+        if isinstance(node, ast.Name) and node.id in env["locals"]:
+            return env["locals"][node.id]
+        return None
 
     def subst(self, lean, env):
         for var, k in env["opt"].items():
@@ -294,12 +336,8 @@ class Exec:
         return e
 
     def optvar(self, node, env):
-        s = unp(node)
-        if s in self.ctx.atoms and self.ctx.atoms[s][0] == "opt":
-            return self.ctx.atoms[s][1]
-        if isinstance(node, ast.Name) and node.id in env["locals"] and env["locals"][node.id][0] == "opt":
-            return env["locals"][node.id][1]
-        return None
+        b = self.lookup(node, env)
+        return b[1] if b is not None and b[0] == "opt" else None
 
     # ---------------------------------------------------------------- statements
     def effect_of_call(self, node):
@@ -350,7 +388,9 @@ class Exec:
         try:
             if isinstance(st, ast.Return):
                 if st.value is not None:
-                    return Leaf(env["effects"] + [f"opaque:{unp(st)}"])
+                    if not self.ctx.spec.get("returns"):
+                        return Leaf(env["effects"] + [f"opaque:{unp(st)}"])
+                    return self.branch(st.value, env, lambda e: Leaf(e["effects"] + ["return True"]), lambda e: Leaf(e["effects"] + ["return False"]))
                 return Leaf(env["effects"])
             if isinstance(st, ast.Raise):
                 if unp(st) in ("raise StopRepeatException", "raise StopRepeatException()"):
@@ -358,20 +398,31 @@ class Exec:
                 return Leaf(env["effects"] + [f"opaque:{unp(st)}"])
             if isinstance(st, ast.If):
                 return self.branch(st.test, env, lambda e: self.run(list(st.body) + rest, e), lambda e: self.run(list(st.orelse) + rest, e))
-            if isinstance(st, ast.Assign) and len(st.targets) == 1 and isinstance(st.targets[0], ast.Name):
-                name, s = st.targets[0].id, unp(st.value)
-                e = dict(env)
-                e["locals"] = dict(env["locals"])
-                if s in self.ctx.atoms:
-                    e["locals"][name] = self.ctx.atoms[s]
-                    if self.ctx.atoms[s][0] == "opt" and s in self.ctx.spec.get("fresh_reads", ()):  # pragma: no cover
-                        pass
+            if isinstance(st, ast.Assign) and len(st.targets) == 1 and isinstance(st.targets[0], (ast.Name, ast.Attribute)):
+                tgt = st.targets[0]
+                is_attr = isinstance(tgt, ast.Attribute)
+
+                def bind(e0, binding):
+                    e = dict(e0)
+                    if is_attr:
+                        e["attrs"] = dict(e0.get("attrs", {}))
+                        e["attrs"][unp(tgt)] = binding
+                        e["effects"] = e0["effects"] + [f"set {unp(tgt)} := {unp(st.value)}"]
+                    else:
+                        e["locals"] = dict(e0["locals"])
+                        e["locals"][tgt.id] = binding
                     return self.run(rest, e)
+
+                b = self.lookup(st.value, env)
+                if b is not None:
+                    return bind(env, b)
+                if isinstance(st.value, (ast.BoolOp, ast.Compare)) or (isinstance(st.value, ast.UnaryOp) and isinstance(st.value.op, ast.Not)):
+                    # a boolean expression: evaluated with short-circuit semantics, the local is then a known literal
+                    return self.branch(st.value, env, lambda e: bind(e, ("bool", "true")), lambda e: bind(e, ("bool", "false")))
                 t, reads = self.term(st.value, env)
                 if reads:
                     raise Opaque(unp(st))
-                e["locals"][name] = ("int", t)
-                return self.run(rest, e)
+                return bind(env, ("int", t))
             if isinstance(st, ast.Expr):
                 if isinstance(st.value, ast.Constant):  # docstring
                     return self.run(rest, env)
